@@ -239,7 +239,7 @@ def _bound_safe(E, hb, e, depth=0):
     e = strip(e)
     k = e.get("k")
     body = hb["body"]
-    if depth > 6:
+    if depth > 16:
         return False, "too deep"
     if k == "Lit":
         v = e["lit"].get("v")
